@@ -96,6 +96,10 @@ func (n *Node) validatePath() error {
 	if strings.ContainsAny(n.name, invalidChars) {
 		return fmt.Errorf("invalid node name: %s", n.name)
 	}
+	// "", "." and ".." disappear when the path is joined and cleaned, so they must be detected by name.
+	if n.name == "" || n.name == ".." || (n.name == "." && !n.isRoot()) {
+		return fmt.Errorf("invalid node name: %s", n.name)
+	}
 	if !fs.ValidPath(n.path()) {
 		return fmt.Errorf("invalid path: %s", n.path())
 	}
